@@ -318,6 +318,53 @@ pub fn toy_relations(out: &mut Vec<Rel>, tier: Tier) {
     vh_core::for_each_toy_te!(te);
 }
 
+/// toy curves over F_49 and F_343 (`vh_core::toy_ext`): rescalings and identity coordinates from the whole
+/// extension field; all ordered pairs x 3 patterns over F_49, over F_343 sampled in the quick tier
+fn toy_ext_decode<P: SWCurveConfig>(pts: &[Sw<P::BaseField>], els: &[P::BaseField], t: &mut Tape<'_>) -> Case<SwM<P>> {
+    let n = pts.len();
+    let i = t.idx(n);
+    let j = t.idx(n);
+    // els[0] is zero, els[1] is one
+    let nz = |t: &mut Tape<'_>| els[1 + t.idx(els.len() - 1)];
+    let lam = nz(t);
+    let mu = nz(t);
+    let nu = nz(t);
+    let junk = |t: &mut Tape<'_>| {
+        let s = t.below(3);
+        let x = els[t.idx(els.len())];
+        let y = els[t.idx(els.len())];
+        match s {
+            0 => (P::BaseField::one(), P::BaseField::one()),
+            1 => (P::BaseField::zero(), P::BaseField::zero()),
+            _ => (x, y),
+        }
+    };
+    let jp = junk(t);
+    let jq = junk(t);
+    Case { p: pts[i], q: pts[j], lam, mu, nu, jp, jq }
+}
+
+pub fn toy_ext_relations(out: &mut Vec<Rel>, tier: Tier) {
+    macro_rules! swx {
+        ($cfg:ty, $name:expr, $n:expr, $h:expr, $r:expr) => {{
+            type F = <$cfg as ark_ec::CurveConfig>::BaseField;
+            let pts = Arc::new(vh_core::toy_ext::enumerate::<$cfg>());
+            assert_eq!(pts.len(), $n);
+            let els = Arc::new(vh_core::toy_ext::all_elems::<F>());
+            let n = pts.len() as u64;
+            let small = $n < 100;
+            let rel = Rel::new(format!("toy-sw-points/{}", $name), tier.pick(if small { 300 } else { 2500 }, 3000), TOY_TAPE, move |t, o| {
+                let c = toy_ext_decode::<$cfg>(&pts, &els, t);
+                o.show(|| show($name, &c));
+                o.class_if(!c.lam.to_base_prime_field_elements().skip(1).all(|z| z.is_zero()), "rescaling outside the prime subfield");
+                sw_points::<$cfg>(&c, o)
+            });
+            out.push(if small || tier == Tier::Thorough { rel.exhaustive(move || all_pairs(n)) } else { rel });
+        }};
+    }
+    vh_core::for_each_toy_sw_ext!(swx);
+}
+
 // ------------------------------------------------------------------------------------------
 // shipped curves
 // ------------------------------------------------------------------------------------------
@@ -495,6 +542,38 @@ where
     all.push(("e(0,Q)", E::pairing(E::G1Affine::zero(), q), E::TargetField::one().to_o()));
     all.push(("e(P,Q)-e(P,Q)", e0 - e0, E::TargetField::one().to_o()));
     check_eq_hash(&all)?;
+    // `PairingOutput` is ordered like its target-field value (documented lexicographic tower order: highest coefficient first)
+    let okey = |e: &vh_core::tower::Elem| -> Vec<BigUint> {
+        fn flat(e: &vh_core::tower::Elem, out: &mut Vec<BigUint>) {
+            match e {
+                vh_core::tower::Elem::P(x) => out.push(x.clone()),
+                vh_core::tower::Elem::E(v) => v.iter().for_each(|x| flat(x, out)),
+            }
+        }
+        let mut v = Vec::new();
+        flat(e, &mut v);
+        v.reverse();
+        v
+    };
+    let ordered: Vec<(&'static str, PairingOutput<E>, Vec<BigUint>)> = all.iter().map(|(l, v, kk)| (*l, *v, okey(kk))).collect();
+    check_order(&ordered)?;
+    // Miller-loop outputs: `==` and `cmp` are those of the wrapped target-field value
+    {
+        use ark_ec::pairing::MillerLoopOutput;
+        let m1: MillerLoopOutput<E> = E::multi_miller_loop([p], [q]);
+        let m2: MillerLoopOutput<E> = E::miller_loop(p, q);
+        let m3: MillerLoopOutput<E> = E::multi_miller_loop([kp], [q]);
+        let m4: MillerLoopOutput<E> = E::multi_miller_loop([p, kp], [q, q]);
+        let ms = [("ml(P,Q)", m1), ("miller_loop(P,Q)", m2), ("ml(kP,Q)", m3), ("ml((P,Q),(kP,Q))", m4)];
+        ensure!(m1.0.to_o() == m2.0.to_o(), "miller_loop", "multi_miller_loop([P],[Q]) and miller_loop(P,Q) differ");
+        for (la, a) in &ms {
+            for (lb, b) in &ms {
+                let (ka, kb) = (okey(&a.0.to_o()), okey(&b.0.to_o()));
+                ensure!((a == b) == (ka == kb) && (a != b) == (ka != kb), "miller.eq", "[{}] == [{}] is {}", la, lb, a == b);
+                ensure!(a.cmp(b) == ka.cmp(&kb) && a.partial_cmp(b) == Some(ka.cmp(&kb)), "miller.cmp", "[{}] cmp [{}] = {:?}, coordinates say {:?}", la, lb, a.cmp(b), ka.cmp(&kb));
+            }
+        }
+    }
     for (l, v, kk) in &all {
         let z = *kk == E::TargetField::one().to_o();
         ensure_eq!(v.is_zero(), z, "is_zero", "[{}] {:?}", l, v);
@@ -509,4 +588,6 @@ pub fn pairing_relations(out: &mut Vec<Rel>, tier: Tier) {
     out.push(Rel::new("pairing/bls12_381", tier.pick(40, 600), 8, |t, o| pairing_rel::<ark_bls12_381::Bls12_381>("bls12_381", t, o)).shrink_iters(60));
     out.push(Rel::new("pairing/bn254", tier.pick(40, 600), 8, |t, o| pairing_rel::<ark_bn254::Bn254>("bn254", t, o)).shrink_iters(60));
     out.push(Rel::new("pairing/mnt4_298", tier.pick(25, 300), 8, |t, o| pairing_rel::<ark_mnt4_298::MNT4_298>("mnt4_298", t, o)).shrink_iters(60));
+    // target field built as 2-over-3 (Fp6 over Fp3)
+    out.push(Rel::new("pairing/mnt6_298", tier.pick(20, 300), 8, |t, o| pairing_rel::<ark_mnt6_298::MNT6_298>("mnt6_298", t, o)).shrink_iters(60));
 }
